@@ -6,7 +6,9 @@
 (*   ops     [fam, ver, shape, variant, proto, steps: [op, arg, idc, red]] *)
 (*   sid     as ops (fam "sid"): proto.sname / proto.skey enumerated        *)
 (*   sib     [fam, ver, ..., proto, pre, f, proto2, same]                  *)
-(*   tamper  [fam, ver, ..., proto, pre, sp, T, hm, kout, kin, red, topk,  *)
+(*   tamper  [fam, ver, ..., proto, pre, sp, vk, vs, vpos (a variant of a  *)
+(*            protected name added: name, kind, position), T, hm, kout,    *)
+(*            kin, red, topk,                                              *)
 (*            conk, tpik, idsame, valid, signers]                          *)
 (*   dup     [fam, ver, ..., proto, m, pos, sp, hm, styp, first, last]     *)
 (*           (a member written twice; first / last: the two readings)      *)
@@ -77,6 +79,7 @@ Emit ==
             ELSE
                 [fam |-> "tamper", ver |-> ver, idfmt |-> EventIDFormat(ver), algo |-> A, proto |-> ProtoJson(proto),
                  pre |-> IF Len(hist) = 2 THEN hist[1].op ELSE "none", sp |-> out.sp,
+                 vk |-> out.vk, vs |-> out.vs, vpos |-> out.vpos,
                  T |-> out.T, hm |-> out.hm, kout |-> out.kout, kin |-> out.kin, red |-> out.red, noop |-> out.noop,
                  topk |-> out.topk, conk |-> out.conk, tpik |-> out.tpik, idsame |-> out.idsame,
                  valid |-> out.valid, signers |-> DOMAIN sigs]))
